@@ -43,7 +43,8 @@ Canon(js) ==
    svc |-> js.svc,
    cpending |-> [x \in DOMAIN js.cpending |-> [k |-> js.cpending[x].k, n |-> CN(js.cpending[x].n)]],
    cleaning |-> {CN(x) : x \in SetOf(js.cleaning)},
-   capps |-> {CN(x) : x \in SetOf(js.capps)}]
+   capps |-> {CN(x) : x \in SetOf(js.capps)},
+   fuel |-> -1]
 
 (* C13 and drift.step look at the fields of the listed property only; the   *)
 (* cleanup service's fields are judged by the ext.cleanup clauses           *)
@@ -77,6 +78,25 @@ BestOrds(p, post, D) ==
      LET R == M!PermSeqs(M!ContGens(p, a))
          good == {o \in R : Slice(M!SyncInst(p, a, o, D), a) = Slice(post, a)}
      IN IF good # {} THEN CHOOSE o \in good : TRUE ELSE CHOOSE o \in R : TRUE]
+
+(* "Crash" [handler, name]: the manager was killed inside the handler of    *)
+(* the head event and restarted.  How far it got is not logged: the state   *)
+(* must be the restart of SOME cut of the handler.  For a cut first sync the *)
+(* instances are judged one by one (each slice is some cut of that          *)
+(* instance's part of _synchronize), which over-approximates the sequential *)
+(* run a little.                                                            *)
+CutFuel == (0..12) \cup {-1}
+CrashCoreOK(pre, args, post, D) ==
+  LET e == Head(pre.pending)
+      isSync == e.k \in {"C", "M"} /\ M!IsFirstSync(pre, e.n)
+  IN IF ~isSync
+     THEN \E k \in CutFuel : CoreEq(M!DoCrash(pre, k, M!NoOrds, D), post)
+     ELSE LET p == [M!Pop(pre) EXCEPT !.active = TRUE] IN
+          /\ \A f \in {"cache", "ready", "tomb"} : post[f] = pre[f]
+          /\ post.active = FALSE /\ post.pending = <<>>
+          /\ \A a \in M!SyncInsts(p) \cup {c.i : c \in DOMAIN post.apps} :
+               \E k \in CutFuel, o \in M!PermSeqs(M!ContGens(p, a)) :
+                  Slice(M!SyncInst([p EXCEPT !.fuel = k], a, o, D), a) = Slice(post, a)
 
 Expected(pre, ev, args, post, D) ==
   CASE ev = "CacheCreate" -> M!DoCacheCreate(pre, args[1], args[2])
@@ -115,13 +135,19 @@ Enabled(pre, ev, args) ==
     [] ev = "NodeStart" -> TRUE
     [] ev = "CleanupStart" -> TRUE
     [] ev = "CleanupEvent" -> pre.svc /\ pre.cpending # <<>>
+    [] ev = "Crash" -> pre.pending # <<>> /\ Head(pre.pending).n = args[2]
+                        /\ Head(pre.pending).k = (CASE args[1] = "OnCreated" -> "C"
+                                                    [] args[1] = "OnDeleted" -> "D"
+                                                    [] OTHER -> "M")
     [] ev = "OnCreated" -> HeadIs(pre, "C", args[1])
     [] ev = "OnModified" -> HeadIs(pre, "M", args[1])
     [] ev = "OnDeleted" -> HeadIs(pre, "D", args[1])
     [] OTHER -> FALSE
 
 ExplainedBy(pre, ev, args, post) ==
-  {D \in SUBSET M!AllDefects : CoreEq(Expected(pre, ev, args, post, D), post)}
+  {D \in SUBSET M!AllDefects :
+     IF ev = "Crash" THEN CrashCoreOK(pre, args, post, D)
+     ELSE CoreEq(Expected(pre, ev, args, post, D), post)}
 
 (* ---- extension: the cleanup service (conformance class, never a          *)
 (* violation of C13) ------------------------------------------------------- *)
@@ -158,8 +184,12 @@ ExtFail(pre, ev, args, post, by) ==
   LET nm == [k |-> args[1], i |-> args[2], g |-> args[3]] IN
   \* (several defect levels can explain the core fields of a step and still
   \* differ in the events they predict: one of them has to fit)
-  F("ext.cleanup.step", by = {} \/ \E D \in by :
-                                     ExtStep(pre, ev, Expected(pre, ev, args, post, D), post))
+  F("ext.cleanup.step",
+    IF ev = "Crash"
+    THEN /\ post.svc = pre.svc /\ post.cleaning = pre.cleaning /\ post.capps = pre.capps
+         /\ Len(post.cpending) >= Len(pre.cpending)
+         /\ SubSeq(post.cpending, 1, Len(pre.cpending)) = pre.cpending
+    ELSE by = {} \/ \E D \in by : ExtStep(pre, ev, Expected(pre, ev, args, post, D), post))
   \cup F("ext.cleanup.invoke", ev = "CleanupCompletes" => ExtInvoke(pre, nm, post))
   \cup F("ext.cleanup.dirs", ev # "CleanupCompletes" => DOMAIN pre.apps \subseteq DOMAIN post.apps)
   \cup F("ext.cleanup.cleaning", ExtCleaning(post))
@@ -185,6 +215,10 @@ Verdict(pre, line, post) ==
                \cup ExtFail(pre, ev, args, post, by),
       ex |-> E("C13", (kind = "sync" /\ (DOMAIN pre.apps # {} \/ DOMAIN pre.cache # {}))
                        \/ (IsHandler(ev) /\ (post.running # pre.running \/ post.cleanup # pre.cleanup)))
+             \cup E("crash", ev = "Crash" /\ post.running = pre.running /\ post.cleanup = pre.cleanup
+                               /\ DOMAIN post.apps = DOMAIN pre.apps)
+             \cup E("crashCut", ev = "Crash" /\ ~(post.running = pre.running /\ post.cleanup = pre.cleanup
+                                                /\ DOMAIN post.apps = DOMAIN pre.apps))
              \cup E("sync", kind = "sync") \cup E("term", kind = "term")
              \cup E("twoGen", kind = "sync" /\ twoGen)
              \cup E("finished", kind = "sync" /\ \E c \in DOMAIN pre.apps : M!Finished(pre, c))
